@@ -1,1 +1,174 @@
--- property theorems for C17 (stub)
+/- C17 — string, buffer and sequence library functions match their reference definitions.
+
+   Property theorems (statements only refer to Lib/Spec.lean, Lib/BufMem.lean, Lib/Kmp.lean, Lib/Sort.lean; the proofs
+   are in the *Laws / *Proofs files).  The constants of the range decoder, the trim set, the case-conversion bounds and
+   the presence of the self-alias guards are regenerated from the C source (Gen/Lib.lean) on every run. -/
+import JanetModel.Lib.SpecLaws
+import JanetModel.Lib.BufMemProofs
+import JanetModel.Lib.KmpProofs
+import JanetModel.Lib.SortProofs
+namespace JanetModel.Props.C17
+open JanetModel.Lib JanetModel.Gen.Lib
+
+/-! ### ★ range decoding: a decoded index is always inside `[0, len]`, or the call is an error -/
+
+/-- `janet_gethalfrange`: accepted exactly for `-len-1 ≤ raw ≤ len`; non-negative indices are themselves, negative ones
+    count from one past the end (`-1 ↦ len`); the result never leaves `[0, len]`. -/
+theorem halfrange_spec (raw : Int) (len : Nat) :
+    (halfrange raw len = none ↔ ¬ (-(len : Int) - 1 ≤ raw ∧ raw ≤ len)) ∧
+    (∀ k, halfrange raw len = some k →
+        k ≤ len ∧ (0 ≤ raw → (k : Int) = raw) ∧ (raw < 0 → (k : Int) = raw + len + 1)) :=
+  ⟨halfrange_none_iff raw len, fun _ h => halfrange_some h⟩
+
+/-- `janet_getargindex` (array/insert-style indices): result in `[0, len]`, negative indices count from the end. -/
+theorem argindex_spec (raw : Int) (len k : Nat) (h : argindex raw len = some k) :
+    k ≤ len ∧ (0 ≤ raw → (k : Int) = raw) ∧ (raw < 0 → (k : Int) = raw + len) :=
+  argindex_some h
+
+/-- `janet_getslice` + every `*/slice`: the decoded range satisfies `start ≤ end ≤ len`, and the result is exactly the
+    `end - start` elements from `start` on — a contiguous part of the input. -/
+theorem slice_spec {α : Type} (l : List α) (s e : Option Int) (r : List α) (h : slice l s e = some r) :
+    ∃ a b, getslice s e l.length = some (a, b) ∧ a ≤ b ∧ b ≤ l.length ∧
+      r = (l.drop a).take (b - a) ∧ r.length = b - a ∧ l = l.take a ++ r ++ l.drop b := by
+  unfold slice at h
+  cases hg : getslice s e l.length with
+  | none => rw [hg] at h; simp at h
+  | some ab =>
+    obtain ⟨a, b⟩ := ab
+    rw [hg] at h
+    simp only [Option.some.injEq] at h
+    obtain ⟨hab, hbl⟩ := getslice_some hg
+    refine ⟨a, b, rfl, hab, hbl, h.symm, ?_, ?_⟩
+    · rw [← h]; simp [List.length_take, List.length_drop]; omega
+    · rw [← h]
+      have h1 : l.drop a = (l.drop a).take (b - a) ++ (l.drop a).drop (b - a) := (List.take_append_drop _ _).symm
+      rw [List.drop_drop] at h1
+      have : a + (b - a) = b := by omega
+      rw [this] at h1
+      rw [List.append_assoc, ← h1, List.take_append_drop]
+
+example : halfrange (-1) 5 = some 5 ∧ halfrange (-6) 5 = some 0 ∧ halfrange (-7) 5 = none ∧ halfrange 6 5 = none := by decide
+example : slice [10, 20, 30, 40] (some (-3)) (some (-1)) = some [30, 40] := by decide
+
+/-! ### ★ self-aliasing -/
+
+/-- `(buffer/push b b)` / `(buffer/push-string b b)`: with the C's order ensure → re-fetch pointer → extra → memcpy, the
+    call is defined (no read through a dangling pointer, no overlapping memcpy, no indeterminate byte) and appends the
+    contents the buffer had *before* it grew.  `pushSelfGuard` is extracted from buffer.c: if the guard disappears this
+    theorem no longer type-checks (see the `example` below for what then happens). -/
+theorem buffer_push_self_alias_safe (b : BufMem.Buf) (bs : List Nat) (h : BufMem.contents b = some bs) :
+    ∃ b', BufMem.pushSelf pushSelfGuard b = some b' ∧ BufMem.contents b' = some (bs ++ bs)
+          ∧ bufferPush bs [PushArg.self] = some (bs ++ bs) := by
+  obtain ⟨b', h1, h2⟩ := BufMem.pushSelf_guard_safe (BufMem.holds_of_contents h)
+  exact ⟨b', h1, BufMem.contents_of_holds h2, bufferPush_self bs⟩
+
+/-- `(buffer/blit b b od os oe)`: defined, and equal to the list-level definition evaluated on the old contents. -/
+theorem buffer_blit_self_alias_safe (b : BufMem.Buf) (bs : List Nat) (h : BufMem.contents b = some bs)
+    (od os len : Nat) (hod : od ≤ bs.length) (hsrc : os + len ≤ bs.length) :
+    ∃ b', BufMem.blitSelf blitSelfGuard b od os len = some b' ∧
+      BufMem.contents b' = some (bs.take od ++ (bs.drop os).take len ++ bs.drop (od + len)) := by
+  obtain ⟨b', h1, h2⟩ := BufMem.blitSelf_guard_safe (BufMem.holds_of_contents h) od os len hod hsrc
+  exact ⟨b', h1, BufMem.contents_of_holds h2⟩
+
+/-- non-vacuity / necessity: a full 4-byte buffer pushed into itself *without* the guard reads freed memory -/
+example : BufMem.pushSelf false ⟨[some 1, some 2, some 3, some 4], 4, 0⟩ = none := by decide
+example : (BufMem.pushSelf true ⟨[some 1, some 2, some 3, some 4], 4, 0⟩).bind BufMem.contents = some [1, 2, 3, 4, 1, 2, 3, 4] := by decide
+example : (BufMem.blitSelf true ⟨[some 1, some 2, some 3, none], 3, 0⟩ 1 0 3).bind BufMem.contents = some [1, 1, 2, 3] := by decide
+
+/-! ### ★ algebraic laws that keep the reference definitions honest -/
+
+/-- `(string/join (string/split sep s start limit) sep) = s` for every non-empty separator, start and limit. -/
+theorem join_split (sep s : Bytes) (start : Nat) (limit : Int) (parts : List Bytes)
+    (h : split sep s start limit = some parts) : join parts sep = s := by
+  unfold split at h
+  by_cases hp : sep = []
+  · simp [hp] at h
+  · rw [if_neg hp] at h
+    simp only [Option.some.injEq] at h
+    rw [← h, join_splitAux _ _ _ _ _ _ (Nat.zero_le _)]
+    simp
+
+/-- replacing every occurrence of `pat` by `pat` itself changes nothing -/
+theorem replaceAll_self (pat s : Bytes) (start : Nat) (hp : pat ≠ []) : replaceAll pat pat s start = some s := by
+  unfold replaceAll
+  rw [if_neg hp, replaceAllAux_self _ _ _ _ _ (Nat.zero_le _)]
+  simp
+
+/-- `replace-all` is driven by `find`: without an occurrence at or after `start` the text is returned unchanged, and
+    the first rewritten position is the one `string/find` reports. -/
+theorem replaceAll_via_find (pat subst s : Bytes) (start : Nat) (hp : pat ≠ []) :
+    (findFrom pat s start = none → replaceAll pat subst s start = some s) ∧
+    (∀ r, findFrom pat s start = some r →
+        replaceAll pat subst s start =
+          some (s.take r ++ subst ++ replaceAllAux pat subst s s.length (r + pat.length) (r + pat.length))) := by
+  unfold replaceAll
+  rw [if_neg hp]
+  constructor
+  · intro h
+    rw [replaceAllAux_no_match _ _ _ _ _ _ h]; simp
+  · intro r h
+    simp [replaceAllAux, h]
+
+/-- `string/find` returns the least index `≥ start` at which the pattern occurs, or nil when there is none. -/
+theorem find_least (pat s : Bytes) (start : Nat) :
+    (∀ r, findFrom pat s start = some r →
+        start ≤ r ∧ matchAt pat s r = true ∧ ∀ k, start ≤ k → k < r → matchAt pat s k = false) ∧
+    (findFrom pat s start = none → ∀ k, start ≤ k → matchAt pat s k = false) :=
+  ⟨fun _ h => findFrom_some h, findFrom_none⟩
+
+theorem take_drop (n : Int) {α : Type} (l : List α) :
+    (0 ≤ n → takeN n l ++ dropN n l = l) ∧ (n < 0 → dropN n l ++ takeN n l = l) :=
+  ⟨takeN_dropN_nonneg n l, dropN_takeN_neg n l⟩
+
+theorem partition_concat {α : Type} (n : Nat) (hn : 1 ≤ n) (l : List α) :
+    (partition n l).flatten = l ∧ ∀ c ∈ partition n l, c.length ≤ n :=
+  ⟨partition_flatten n hn l, partitionAux_chunk_le n _ l⟩
+
+theorem trim_edges (s set : Bytes) :
+    triml s set = s.drop (leftEdge s set) ∧ trimr s set = s.take (rightEdge s set) :=
+  ⟨triml_eq_drop s set, trimr_eq_take s set⟩
+
+theorem reverse_involutive (s : Bytes) : s.reverse.reverse = s := List.reverse_reverse s
+
+theorem prefix_checkset (p s set : Bytes) :
+    (hasPrefix p s = true ↔ ∃ t, s = p ++ t) ∧ (checkSet set s = true ↔ ∀ c ∈ s, c ∈ set) :=
+  ⟨hasPrefix_iff p s, checkSet_iff set s⟩
+
+theorem insert_remove {α : Type} (a xs : List α) (i : Nat) (hi : i ≤ a.length)
+    (h32 : (a.length : Int) + xs.length ≤ int32Max) :
+    (arrayInsert a i xs).bind (fun r => arrayRemove r i xs.length) = some a :=
+  arrayInsert_remove a xs i hi h32
+
+/-! ### sort (boot.janet sort-help: median-of-three with `<=`, Hoare partition with `before?`) -/
+
+/-- ☆ PARTIAL (`sort_perm_sorted`): proved for EVERY comparator, strict or not — whenever `sort` returns, the result is a
+    permutation of the input (nothing lost or duplicated).
+    Missing part, tested by the correspondence harness + the ordered-permutation oracle, not proved:
+      `StrictWeakOrder before → ∃ r, sort le before a = .ok r ∧ Sorted before r`  (termination within the fuel, in-bounds
+      scans, orderedness).  The partition-step lemmas towards it are `partition_scan_left` below. -/
+theorem sort_perm_sorted_partial {α : Type} (le before : α → α → Bool) (a r : Array α)
+    (h : Sort.sort le before a = .ok r) : Array.Perm r a ∧ r.size = a.size := by
+  have hp := Sort.sort_perm le before a r h
+  exact ⟨hp, by simpa using hp.toList.length_eq⟩
+
+/-- partition step: the left scan stops at the first element that is not `before?` the pivot; with a sentinel at or after
+    `left` it neither indexes outside the array nor exhausts its fuel. -/
+theorem partition_scan_left {α : Type} (before : α → α → Bool) (a : Array α) (pivot : α) (left s : Nat) (x : α)
+    (hs : left ≤ s) (hx : a[s]? = some x) (hnb : before x pivot = false) :
+    ∃ k, Sort.scanLeft before a pivot (a.size + 1) left = .ok k ∧ left ≤ k ∧ k ≤ s ∧
+      (∃ y, a[k]? = some y ∧ before y pivot = false) ∧
+      ∀ i, left ≤ i → i < k → ∃ y, a[i]? = some y ∧ before y pivot = true := by
+  have hsz : s < a.size := by
+    rcases Nat.lt_or_ge s a.size with h | h
+    · exact h
+    · rw [Array.getElem?_eq_none h] at hx; simp at hx
+  obtain ⟨k, hk, hks⟩ := Sort.scanLeft_sentinel before a pivot (a.size + 1) left s x hs hx hnb (by omega)
+  obtain ⟨h1, h2, h3⟩ := Sort.scanLeft_ok before a pivot _ left k hk
+  exact ⟨k, hk, h1, hks, h2, h3⟩
+
+example : Sort.sort (fun a b => decide (a ≤ b)) (fun a b => decide (a % 4 < b % 4)) #[3, 1, 2, 5, 4, 1]
+    = .ok #[4, 5, 1, 1, 2, 3] := by decide
+/-- a non-strict comparator makes the real code recurse without bound; the model reports fuel exhaustion -/
+example : Sort.sort (fun a b => decide (a ≤ b)) (fun a b => decide (a ≥ b)) #[2, 8, -8] = .fuel := by decide
+
+end JanetModel.Props.C17
